@@ -97,7 +97,7 @@ func runBatch(c *fw.Ctx, tier string, b int, shapes []*prog.Shape, keep bool) ([
 		RunnerPkg:  "verif/mc/progrun",
 		Env:        []string{"PROGRUN_MODE=c05", "PROGRUN_S=" + sNodes, "PROGRUN_PAIRCAP=" + pairCap},
 		BuildP:     3,
-		Timeout:    4 * time.Minute,
+		Timeout:    15 * time.Minute,
 		Keep:       keep,
 		GoCache:    os.Getenv("VERIF_SCRATCH_GOCACHE"),
 	}
